@@ -137,6 +137,30 @@ theorem from_hk_row0 (B : Basis K d) (h : Mat K d d) (k : Mat K (d * d - 1) (d *
 end gkslthm
 
 
+/-! ## the index glue of the extraction loops, regenerated from the source -/
+section glue
+variable {K : Type} [Field K] [StarRing K] [HasI K] {d : Nat}
+
+/-- C18 tie to the source (`calc_h_mat`): the executed loop — the generic loop instantiated with the constants that
+`translate` regenerates from `effective_lindbladian.py` on every run (loop range `basis`, `kron(B,1) − kron(1, B.conj())`,
+coefficient `1j/(2 dim)`) — is `Σ_α hCoef(α) · B_α` over the WHOLE basis, in every dimension. A source edit of the
+range, sign, conjugation or coefficient changes `QGen/C18.lean` and breaks this proof. -/
+theorem calc_h_mat_glue (B : Basis K d) (L : Mat K (d * d) (d * d)) :
+    calcHMatCb B L = msum (d * d) fun a => (B.get a).smul (hCoef B L a) :=
+  calcHMatCb_eq_ref B L
+
+/-- C18 tie to the source (`calc_j_mat`): range `enumerate(basis)` (not `basis[1:]`, D12), `+`, `B.conj()`,
+coefficient `1/(2 dim (1+δ))` with `δ = 1` exactly on element 0. -/
+theorem calc_j_mat_glue (B : Basis K d) (L : Mat K (d * d) (d * d)) :
+    calcJMatCb B L = msum (d * d) fun a => (B.get a).smul (jCoef B L a (decide (a.val = 0))) :=
+  calcJMatCb_eq_ref B L
+
+/-- C18 tie to the source (`calc_k_mat`): both loops over `basis[1:]`, second factor conjugated. -/
+theorem calc_k_mat_glue (B : Basis K d) (L : Mat K (d * d) (d * d)) (a b : Fin (d * d - 1)) :
+    (calcKMatCb B L).get a b = trMul L (kron (B.get (suc a)) (conjM (B.get (suc b)))) :=
+  calcKMatCb_get B L a b
+end glue
+
 /-! ## extraction ∘ rebuild -/
 section extractthm
 variable {K : Type} [Field K] [StarRing K] [CharZero K] [HasI K] {d : Nat}
@@ -147,7 +171,7 @@ theorem extract_k_of_rebuild (B : Basis K d) (z : Fin (d * d)) (s : K) (hB : ONH
     (h j : Mat K d d) (k : Mat K (d * d - 1) (d * d - 1)) (hh : h.toMᴴ = h.toM) (hj : j.toMᴴ = j.toM) :
     calcKMatCb B (cbFromHjk B h j k) = k := by
   apply Mat.ext'; intro a b
-  simp only [calcKMatCb, Mat.get_ofFn]
+  rw [calcKMatCb_get]
   rw [trMul_cbFromHjk_kron B h j k hh hj hB.herm, conjM_toM_of_herm _ (hB.herm (suc b))]
   simp only [toM_get_eq_Bm, Matrix.trace_transpose, hB.trace_suc, mul_zero, zero_mul, sub_self,
     add_zero, hB.orth, hB.orth_T, suc_eq_iff]
@@ -266,6 +290,32 @@ theorem parts_sum (B : Basis K d) (z : Fin (d * d)) (s : K) (hB : ONH0 B z s)
   abel
 
 end matthm
+
+section cpthm
+open scoped ComplexOrder
+variable {d : Nat}
+
+/-- C18 `cp_iff_K_psd` (the completely-positive part of the verdict, for the jump part of the generator): for an
+orthonormal Hermitian basis the Choi matrix of `ρ ↦ Σ_ab K_ab B_a ρ B_b†` (the model's `kPart`, the table
+`basis_basisconjugate_T_sparse_from_1`) is `V K Vᴴ` with `VᴴV = 1`; hence that map is completely positive iff the
+dissipator matrix `K` — what `is_cp` tests through `calc_k_mat` — is positive semidefinite. All dimensions.
+(`⇐` needs no assumption on the basis. That `exp(tL)` is CP for all `t ≥ 0` iff `K` is PSD — Lindblad's theorem —
+is not formalised.) -/
+theorem cp_iff_K_psd (B : Basis ℂ d) (z : Fin (d * d)) (s : ℂ) (hB : ONH0 B z s)
+    (k : Mat ℂ (d * d - 1) (d * d - 1)) :
+    (choiCb (kPart B k)).toM.PosSemidef ↔ k.toM.PosSemidef :=
+  ⟨psd_of_choiCb_kPart_psd B z s hB k, choiCb_kPart_psd B k⟩
+
+/-- the `⇐` direction for ANY basis: a PSD dissipator matrix gives a completely positive jump part. -/
+theorem kPart_cp_of_K_psd (B : Basis ℂ d) (k : Mat ℂ (d * d - 1) (d * d - 1)) (hk : k.toM.PosSemidef) :
+    (choiCb (kPart B k)).toM.PosSemidef :=
+  choiCb_kPart_psd B k hk
+end cpthm
+
+open scoped ComplexOrder in
+example : ((choiCb (kPart basis1 (Mat.zero : Mat ℂ (1 * 1 - 1) (1 * 1 - 1)))).toM.PosSemidef ↔
+    (Mat.zero : Mat ℂ (1 * 1 - 1) (1 * 1 - 1)).toM.PosSemidef) :=
+  cp_iff_K_psd basis1 _ 1 onh0_basis1 _
 
 section expthm
 variable {R : Type} [Field R] {n : Nat}
